@@ -540,7 +540,10 @@ PTRef Interpret::parseTerm(const ASTNode& term, LetRecords& letRecords) {
                 return PTRef_Undef;
             }
             ASTNode& sym = **(name_attr.children->begin());
-            assert(sym.getType() == SYM_T or sym.getType() == QSYM_T);
+            if ((sym.getType() != SYM_T and sym.getType() != QSYM_T) or sym.getValue() == nullptr) {
+                notify_formatted(true, "attribute :named requires a symbol");
+                return PTRef_Undef;
+            }
             char const * str = sym.getValue();
             bool const success = main_solver->tryAddTermNameFor(tr, str);
             if (not success) {
